@@ -206,10 +206,10 @@ def _worker_main(wid: int, conn, root: str, granule: int, fault: Optional[Dict[s
             os._exit(0)
         if msg[0] == "STOP":
             os._exit(0)
-        _, func, items = msg
-        for idx, args in items:
+        _, items = msg
+        for idx, func, args, kwds in items:
             try:
-                res = ("ok", func(*args))
+                res = ("ok", func(*args, **kwds))
             except BaseException as e:  # noqa: BLE001 - SystemExit from an evaluated exit() must not kill the worker silently
                 try:
                     blob = pickle.dumps(e) if isinstance(e, Exception) else None
@@ -269,6 +269,7 @@ class Worker:
         self.tasks_done = 0
         self.chunk: List[str] = []
         self.pos = 0
+        self.job: Optional[Dict[str, Any]] = None
 
 
 class Sim:
@@ -341,6 +342,54 @@ class Sim:
         return idle[i]
 
 
+class _SimAsyncResult:
+    def __init__(self, pool, state, is_ready, callback, error_callback, is_map: bool):
+        self.pool = pool
+        self.state = state
+        self._is_ready = is_ready
+        self._callback = callback
+        self._error_callback = error_callback
+        self._is_map = is_map
+        self._fired = False
+
+    def _value(self):
+        return list(self.state["results"]) if self._is_map else self.state["results"][0]
+
+    def _fire_callbacks(self) -> None:
+        if self._fired:
+            return
+        self._fired = True
+        if self.state["first_exc"] is not None:
+            if self._error_callback:
+                self._error_callback(SimPool._exc_of(self.state["first_exc"]))
+        elif self._callback:
+            self._callback(self._value())
+
+    def ready(self) -> bool:
+        return self._is_ready()
+
+    def successful(self) -> bool:
+        if not self.ready():
+            raise ValueError("not ready")
+        return self.state["first_exc"] is None
+
+    def wait(self, timeout=None) -> None:
+        self.pool._pump(self._is_ready)
+        self._fire_callbacks()
+        if self._is_map and not self.state.get("recorded") and self.state["n"]:
+            self.state["recorded"] = True
+            sim = self.pool.sim
+            sim.pass_results.append(list(self.state["results"]))
+            sim.log.add("pass", sim.pass_no, "results", [_changed(r) for r in self.state["results"]])
+
+    def get(self, timeout=None):
+        self.wait()
+        if self.state["first_exc"] is not None:
+            self.pool.sim.log.add("raises", self.state["first_exc"][1])
+            raise SimPool._exc_of(self.state["first_exc"])
+        return self._value()
+
+
 class SimPool:
     def __init__(self, sim: Sim, processes: Optional[int] = None):
         if processes is None:
@@ -349,6 +398,8 @@ class SimPool:
             raise ValueError("Number of processes must be at least 1")
         self.sim = sim
         self.workers: List[Worker] = []
+        self.queue: "collections.deque" = collections.deque()
+        self.written_this_pass: Dict[str, int] = {}
         sim.workers = self.workers
         sim.log.add("pool", "create", processes)
         sim.stats.inc("pools_created")
@@ -401,48 +452,45 @@ class SimPool:
                 pass
             w.conn.close()
 
-    close = terminate
-
-    def join(self) -> None:
+    def close(self) -> None:  # the real close() lets queued work finish; terminate() happens in __exit__
         pass
 
-    def map(self, func, iterable, chunksize=None):
-        return self.starmap(func, [(x,) for x in iterable], chunksize)
+    def join(self) -> None:
+        self._pump(lambda: not self.queue and all(w.state == "idle" for w in self.workers))
 
-    # ---- the heart: one pass
-    def starmap(self, func, iterable, chunksize=None):
+    # ------------------------------------------------------------------ job plumbing
+    def _label(self, args: Any) -> str:
+        try:
+            first = args[0]
+            return self.sim.rel(str(first)) if _under_root(os.path.abspath(str(first)), self.sim.root) else str(first)[:40]
+        except Exception:  # noqa: BLE001
+            return "?"
+
+    def _submit(self, items: List[Tuple[Any, Any, tuple, dict]], on_item, on_done=None) -> Dict[str, Any]:
+        """One job = a chunk of calls that one worker runs one after the other
+        (a raising call ends the chunk, as in starmapstar)."""
+        job = {"items": items, "on_item": on_item, "on_done": on_done, "done": False, "labels": [self._label(it[2]) for it in items]}
+        self.queue.append(job)
+        return job
+
+    def _pump(self, until) -> None:
+        """The scheduler: runs until the condition holds.  Decisions: which idle
+        worker takes the next queued job; which parked worker performs its FS
+        operation next.  Results (and callbacks) are processed in the order in
+        which the scheduled execution produces them - the completion order."""
         sim = self.sim
-        tasks = list(iterable)
-        sim.pass_no += 1
-        n = len(tasks)
-        if chunksize is None:
-            chunksize, extra = divmod(n, len(self.workers) * 4)
-            if extra:
-                chunksize += 1
-        if n == 0:
-            return []
-        files = [sim.rel(str(t[0])) for t in tasks]
-        sim.pass_files.append(files)
-        sim.log.add("pass", sim.pass_no, "tasks", files, "chunksize", chunksize)
-        chunks = [list(enumerate(tasks))[i : i + chunksize] for i in range(0, n, chunksize)]
-        pending = collections.deque(chunks)
-        results: List[Any] = [None] * n
-        got = [False] * n
-        first_exc = None
-        chunks_left = len(chunks)
-        written_this_pass: Dict[str, int] = {}
-        while chunks_left:
+        while not until():
             idle = [w for w in self.workers if w.state == "idle"]
-            while pending and idle:
+            while self.queue and idle:
                 w = sim.pick_idle(idle)
                 idle.remove(w)
-                chunk = pending.popleft()
-                sim.log.add("assign", "w%d" % w.wid, [i for i, _ in chunk])
-                w.conn.send(("CHUNK", func, chunk))
+                job = self.queue.popleft()
+                sim.log.add("assign", "w%d" % w.wid, job["labels"])
+                w.conn.send(("CHUNK", [(k, it[1], it[2], it[3]) for k, it in enumerate(job["items"])]))
                 w.state = "running"
-                w.chunk = [files[i] for i, _ in chunk]
+                w.job = job
+                w.chunk = job["labels"]
                 w.pos = 0
-            # let every running worker reach its next FS operation (or finish its chunk)
             for w in self.workers:
                 while w.state == "running":
                     try:
@@ -453,40 +501,120 @@ class SimPool:
                         w.state = "parked"
                         w.op = (msg[1], msg[2], msg[3])
                     elif msg[0] == "RESULT":
-                        _, idx, res = msg
-                        got[idx] = True
+                        _, k, res = msg
                         w.tasks_done += 1
                         w.pos += 1
-                        sim.log.add("result", "w%d" % w.wid, idx, res[:3] if res[0] == "exc" else ("ok", C.sha(res[1])[:12] if isinstance(res[1], str) else res[1]))
-                        if res[0] == "ok":
-                            results[idx] = res[1]
-                        else:
+                        sim.log.add("result", "w%d" % w.wid, w.job["labels"][k], res[:3] if res[0] == "exc" else ("ok", C.sha(res[1])[:12] if isinstance(res[1], str) else res[1]))
+                        if res[0] == "exc":
                             sim.stats.inc("task_raised")
-                            if first_exc is None:
-                                first_exc = res
+                        w.job["on_item"](w.job["items"][k][0], res)
                     elif msg[0] == "CHUNK_DONE":
                         w.state = "idle"
-                        w.task = None
-                        chunks_left -= 1
+                        job, w.job = w.job, None
+                        job["done"] = True
+                        if job["on_done"]:
+                            job["on_done"]()
                     else:
                         raise C.HarnessError(f"unexpected worker message {msg[0]}")
+            if until():
+                return
             parked = [w for w in self.workers if w.state == "parked"]
             if not parked:
+                if not self.queue and all(w.state == "idle" for w in self.workers):
+                    raise C.HarnessError("pool is idle but the awaited result never arrived")
                 continue
             w = sim.pick_worker(parked)
-            self._release(w, written_this_pass)
-        sim.pass_results.append(list(results))
-        sim.log.add("pass", sim.pass_no, "results", [_changed(r) for r in results])
-        if first_exc is not None:
-            sim.log.add("pass", sim.pass_no, "raises", first_exc[1])
-            exc = None
-            if first_exc[3] is not None:
-                try:
-                    exc = pickle.loads(first_exc[3])
-                except Exception:  # noqa: BLE001
-                    exc = None
-            raise exc if isinstance(exc, BaseException) else SimTaskError(f"{first_exc[1]}: {first_exc[2]}")
-        return results
+            self._release(w, self.written_this_pass)
+
+    @staticmethod
+    def _exc_of(res) -> BaseException:
+        exc = None
+        if res[3] is not None:
+            try:
+                exc = pickle.loads(res[3])
+            except Exception:  # noqa: BLE001
+                exc = None
+        return exc if isinstance(exc, BaseException) else SimTaskError(f"{res[1]}: {res[2]}")
+
+    # ------------------------------------------------------------------ map family
+    def map(self, func, iterable, chunksize=None):
+        return self._map(func, [(x,) for x in iterable], chunksize)
+
+    def starmap(self, func, iterable, chunksize=None):
+        return self._map(func, [tuple(x) for x in iterable], chunksize)
+
+    def _map_async(self, func, tasks, chunksize=None, callback=None, error_callback=None):
+        sim = self.sim
+        sim.pass_no += 1
+        self.written_this_pass = {}
+        n = len(tasks)
+        if chunksize is None:
+            chunksize, extra = divmod(n, len(self.workers) * 4)
+            if extra:
+                chunksize += 1
+        files = [self._label(t) for t in tasks]
+        state = {"results": [None] * n, "first_exc": None, "left": 0, "n": n, "files": files, "order": []}
+        if n == 0:
+            return _SimAsyncResult(self, state, lambda: True, callback, error_callback, is_map=True)
+        sim.pass_files.append(files)
+        sim.log.add("pass", sim.pass_no, "tasks", files, "chunksize", chunksize)
+
+        def on_item(idx, res):
+            state["order"].append(idx)
+            if res[0] == "ok":
+                state["results"][idx] = res[1]
+            elif state["first_exc"] is None:
+                state["first_exc"] = res
+
+        def on_done():
+            state["left"] -= 1
+
+        for i in range(0, n, chunksize):
+            state["left"] += 1
+            self._submit([(j, func, tasks[j], {}) for j in range(i, min(n, i + chunksize))], on_item, on_done)
+        return _SimAsyncResult(self, state, lambda: state["left"] == 0, callback, error_callback, is_map=True)
+
+    def _map(self, func, tasks, chunksize=None):
+        ar = self._map_async(func, tasks, chunksize)
+        return ar.get()
+
+    def map_async(self, func, iterable, chunksize=None, callback=None, error_callback=None):
+        return self._map_async(func, [(x,) for x in iterable], chunksize, callback, error_callback)
+
+    def starmap_async(self, func, iterable, chunksize=None, callback=None, error_callback=None):
+        return self._map_async(func, [tuple(x) for x in iterable], chunksize, callback, error_callback)
+
+    def imap(self, func, iterable, chunksize=1):
+        return iter(self._map(func, [(x,) for x in iterable], chunksize))
+
+    def imap_unordered(self, func, iterable, chunksize=1):
+        ar = self._map_async(func, [(x,) for x in iterable], chunksize)
+        ar.wait()
+        if ar.state["first_exc"] is not None:
+            raise self._exc_of(ar.state["first_exc"])
+        return iter([ar.state["results"][i] for i in ar.state["order"]])  # completion order
+
+    # ------------------------------------------------------------------ apply family
+    def apply_async(self, func, args=(), kwds=None, callback=None, error_callback=None):
+        state = {"results": [None], "first_exc": None, "left": 1, "n": 1, "files": [self._label(args)], "order": []}
+        ar = _SimAsyncResult(self, state, lambda: state["left"] == 0, callback, error_callback, is_map=False)
+
+        def on_item(idx, res):
+            if res[0] == "ok":
+                state["results"][0] = res[1]
+            else:
+                state["first_exc"] = res
+
+        def on_done():
+            state["left"] = 0
+            ar._fire_callbacks()  # in completion order, from inside the scheduler, like the real result handler
+
+        self.sim.stats.inc("apply_async_jobs")
+        self._submit([(0, func, tuple(args), dict(kwds or {}))], on_item, on_done)
+        return ar
+
+    def apply(self, func, args=(), kwds=None):
+        return self.apply_async(func, args, kwds).get()
 
     def _release(self, w: Worker, written_this_pass: Dict[str, int]) -> None:
         """Let worker w perform its parked FS operation; monitor the file system around it."""
